@@ -90,6 +90,9 @@ func judgeXMP(c *Ctx, entry string, rec *gen.XRecord, f *harness.Fields, lenient
 			continue
 		}
 		expected[p.Path] = ""
+		if p.NoJudge {
+			continue
+		}
 		g := f.Get(p.Path)
 		ok := false
 		if p.IsF {
